@@ -214,6 +214,10 @@ def gen_case_forall(rng, tier):
     body = inner.cond(rng.randint(0, 2))
     doms.append([9, rng.sample(range(nobj), rng.randint(1, min(3, nobj)))])
     cond = ['forall', 9, body]
+    if rng.random() < 0.35:
+        # the universal argument is an EXPRESSION over the universal variable (for_all(u.peer, c)): it ranges over the values
+        # of the expression for every u, several u may share a value, and c may depend on u through other paths
+        cond.append(['map', ['f', F[rng.choice(['peer', 'a', 'f'])]], ['var', 9]])
     if rng.random() < 0.5:
         other = g.cond(rng.randint(0, 1))
         cond = ['and', other, cond, 'fn'] if rng.random() < 0.5 else ['and', cond, other, 'fn']
@@ -247,6 +251,18 @@ def gen_case_sub(rng, tier):
         c['cond'][3] = 'fn'
     inlined = c['cond']
     c['cond'] = wrap_subs(rng, c['cond'])
+    if rng.random() < 0.3:
+        # the sub-query is the ONLY condition of the enclosing descriptor, holds a disjunction, and selects only some of the
+        # variables its condition mentions (the enclosing query selects the others as well)
+        avail = [d[0] for d in c['doms']]
+        g = Gen(rng, nv, maxdepth=2, neg=False, p_lit=0.15)
+        g.keys = list(avail)
+        body = ['or', g.cond(rng.randint(0, 1)), g.cond(rng.randint(0, 1)), rng.choice(['fn', 'op'])]
+        ks = sorted(cond_keys(body, set()))
+        sub_sel = rng.sample(ks, rng.randint(1, max(1, len(ks) - 1)))
+        c['cond'] = ['sub', [['var', v] for v in sub_sel], body]
+        c['sel'] = [['var', k] for k in rng.sample(avail, len(avail))]
+        c['form'] = 'set_of' if len(avail) > 1 else rng.choice(['entity', 'set_of'])
     used = cond_keys(c['cond'], set())
     from qcase import term_keys
     for t in c['sel']:
@@ -279,7 +295,8 @@ def gen_case_flat(rng, tier):
                 ['cmp', '==', flat, ['map', ['f', F['b']], ['var', 1]]], 'fn']
     else:
         cond = ['in', flat, ['map', ['f', F['pair']], ['var', 1]]]
-    return dict(heap=heap, doms=doms, binders=[['var', 1], ['flat', 5, ft]], sel=sel, cond=cond, form='set_of' if len(sel) > 1 or rng.random() < 0.5 else 'entity')
+    return dict(heap=heap, doms=doms, binders=[['var', 1], ['flat', 5, ft]], sel=sel, cond=cond, form='set_of' if len(sel) > 1 or rng.random() < 0.5 else 'entity',
+                list_items=rng.random() < 0.5)
 
 
 def gen_case_concat(rng, tier):
@@ -295,13 +312,14 @@ def gen_case_concat(rng, tier):
             heap[i][3] = []                                    # every inner collection empty
     r = rng.random()
     if r < 0.35:
-        return dict(heap=heap, doms=[doms[0]], binders=[['concat', 6, 1, ct]], sel=[conc], cond=None, form='entity')
+        return dict(heap=heap, doms=[doms[0]], binders=[['concat', 6, 1, ct]], sel=[conc], cond=None, form='entity',
+                    list_items=rng.random() < 0.6)
     item = ['map', ['f', F[rng.choice('ab')]], ['var', 2]]
     cond = ['in', item, conc] if rng.random() < 0.5 else ['contains', conc, item]
     if rng.random() < 0.4:
         cond = ['not', cond, 'fn']
     return dict(heap=heap, doms=doms, binders=[['concat', 6, 1, ct], ['var', 2]], sel=[['var', 2]], cond=cond,
-                form='entity' if rng.random() < 0.6 else 'set_of')
+                form='entity' if rng.random() < 0.6 else 'set_of', list_items=rng.random() < 0.6)
 
 
 def gen_case_join(rng, tier=None):
